@@ -175,6 +175,17 @@ CHECKS = {
         note='Trusted: Lean kernel; standard axioms; the regexes that lex a reference spelling are not modelled (scan_spelling of the design is not proved): a spelling is tied to its '
              'coordinates only by the end-to-end sweep; openpyxl column_index_from_string is an external validated exhaustively (C14).',
         technique='Lean 4 proof over hand model + differential correspondence + independent coordinate-decoding oracle', design='5/C02'),
+    'C19': dict(
+        text='Lean 4 theorems over a scanner model of the two regexes of _get_suspicious_constructions, the report key and the gate: every reported fragment is call syntax '
+             'occurring in the cell text (scan_sound, by induction over the scan), hence a cell without call syntax - in particular without "(" - is never listed '
+             '(no_paren_never_listed), cells whose call syntax is only upper-case identifiers are never listed (only_excel_calls_never_listed), every listed fragment has an '
+             'identifier that is not upper-case throughout (listed_is_python_like), with the check disabled the exception is never raised and enabled exactly when a cell is '
+             'listed (disabled_never_raises, enabled_raises_iff), the key is \'title\' + column letters + row (reportKey_shape). NOT proved: completeness of the scanner '
+             '(every Python-like cell is listed) - that direction rests on Tie B. Tie B: per cell text the real scanner vs the Lean scanner and vs an independent hand scanner; '
+             'workbooks with fragments planted off the diagonal on several sheets, through openpyxl and the facade, check on/off: exception type, exact key set, fragments.',
+        note='Partial: the "is rejected / is listed" direction (completeness) is established by the differential sweep, not by a theorem. Trusted: Lean kernel; standard axioms; '
+             'the model of leftmost non-overlapping regex matching for these two patterns; openpyxl cell.row / column_letter.',
+        technique='Lean 4 proof (scanner soundness, gate) over hand model + differential correspondence + independent oracle through the real file path', design='5/C19'),
 }
 
 WIP = set()   # built, proofs in progress: not claimed until green
